@@ -46,7 +46,7 @@ P = {
  "C18": ("hist", "exploration", "PBT of iterator scripts and re-entrant visitors",
          "Next/Close scripts over up to 3 interleaved iterators with same-goroutine mutations, and visitors calling back into the store; sequence, Next()==false after end, producer goroutine exit, version reference count, watchdog; a fault phase fails every file call of visit/iterator histories once.", "3 C18"),
  "C19": ("hist", "exploration", "PBT with read-log vs decoder value ranges (sequential histories + generated schedules)",
-         "The StoreFile read log of key-only operations is intersected with value byte ranges computed by the independent decoder from every flush; reads during NewStore must stay inside the last root record and number <= 8 (also with the KeyCompareForCollection callback installed); a concurrent phase attributes reads to key-only reader ops under the cooperative scheduler.", "3 C19"),
+         "The StoreFile read log of key-only operations is intersected with value byte ranges computed by the independent decoder from every flush; reads during NewStore must stay inside the last root record and number <= 8 (also with the KeyCompareForCollection callback installed); a concurrent phase attributes reads to key-only reader ops under the cooperative scheduler; a fault phase repeats the read-log rule under single-fault enumeration (every file call of a history fails once).", "3 C19"),
 }
 
 ENGINES = [
